@@ -59,8 +59,9 @@ func TestSelectorsUnderRaceDetector(t *testing.T) {
 						default:
 						}
 						if e, err := s.Select(msg(uint32(k)*0x9e3779b9 + uint32(g))); err == nil {
-							if e.Host != A.Host && e.Host != B.Host && e.Host != C.Host {
-								t.Errorf("%s: non-member %s", name, e.Host)
+							// the whole record, not only the host: a copy torn by a concurrent in-place shift mixes two members
+							if e != A && e != B && e != C {
+								t.Errorf("%s: non-member %+v", name, e)
 							}
 						}
 					}
@@ -70,6 +71,11 @@ func TestSelectorsUnderRaceDetector(t *testing.T) {
 				s.Add(C)
 				s.Remove(C)
 				s.Refresh([]endpoint.Endpoint{B, C})
+				s.Refresh([]endpoint.Endpoint{A, B, C})
+				// removing the first of three shifts the others down in place; adding it back appends
+				s.Remove(A)
+				s.Add(A)
+				s.Remove(B)
 				s.Refresh([]endpoint.Endpoint{A, B})
 			}
 			close(stop)
